@@ -75,7 +75,14 @@ func (x *exec) callCommon(st *State, fr *Frame, ins ssa.Instruction, c *ssa.Call
 	}
 	// intrinsics
 	if ci.fn != nil {
+		if isIntrinsicKey(ci.key) {
+			x.callSiteAsserts(st, fr, ins, ci, full)
+		}
 		if rets, ok := x.intrinsic(st, fr, ins, ci, full); ok {
+			// atomics and locks are recorded as quiet events so that contracts can count them
+			x.recordEventVals(st, ins, ci.key, kind, full, paramNames(ci, nil))
+			st.trace[len(st.trace)-1].Quiet = true
+			st.trace[len(st.trace)-1].Rets = rets
 			k(st, rets)
 			return
 		}
